@@ -45,7 +45,9 @@ func NewDualView() *View {
 
 func NewViewFromGroupedRecord(ctx context.Context, flags *option.Flags, referenceRecord ReferenceRecord) (*View, error) {
 	view := NewView()
-	view.Header = referenceRecord.view.Header
+	// The header is shared by the views of all groups: cap it so that a column appended to one of them
+	// (ORDER BY expression of a list function) is not written into the spare capacity of the shared header.
+	view.Header = referenceRecord.view.Header[:len(referenceRecord.view.Header):len(referenceRecord.view.Header)]
 	record := referenceRecord.view.RecordSet[referenceRecord.recordIndex]
 
 	view.RecordSet = make(RecordSet, record.GroupLen())
